@@ -184,16 +184,18 @@ def real_traces(rnd, n_hist, beta, beta2, nep, long_calls):
     for t in range(n_hist):
         bl = mk_warmup(beta, beta2, nep)
         ev = []
-        ep = 0
+        # a fresh baseline object whose first callback carries epoch ep0 > 0 = training resumed from a checkpoint during warm-up
+        # (Lightning restores the weights, not the plain attribute alpha); one third of the histories
+        ep = rnd.randint(1, max(1, nep - 1)) if t % 3 == 2 else 0
         for _ in range(rnd.randint(1, 4)):
-            if rnd.random() < 0.4:
+            if rnd.random() < 0.4 or (t % 3 == 2 and not ev):
                 bl.epoch_callback(None, env=None, batch_size=1, device="cpu", epoch=ep, dataset_size=None)
+                ev.append({"call": "epoch", "ep": ep, "batch": [], "ret": 0, "alpha": int(round(float(bl.alpha) * 1e6))})
                 ep += 1
-                ev.append({"call": "epoch", "batch": [], "ret": 0, "alpha": int(round(float(bl.alpha) * 1e6))})
             else:
                 b = [rnd.randint(-3, 3) for _ in range(rnd.randint(1, 2))]
                 val, _ = bl.eval(None, t32(b), None)
-                ev.append({"call": "eval", "batch": b, "ret": int(round(float(val) * 1e6)),
+                ev.append({"call": "eval", "ep": 0, "batch": b, "ret": int(round(float(val) * 1e6)),
                            "alpha": int(round(float(bl.alpha) * 1e6))})
         recs.append({"kind": "U", "mode": "", "ev": ev})
     return recs
